@@ -360,29 +360,50 @@ def front_ends(corpus: Corpus) -> tuple[list[FrontEnd], list[tuple[FunctionInfo,
         rcls = _renderer_classes(corpus)
         fes: list[FrontEnd] = []
         others: list[tuple[FunctionInfo, ast.Call, str]] = []
-        for fi in corpus.all_functions():
-            if fi.is_lambda:
+        base_factory = corpus.func("parsers.mdit:create_md_parser")
+        # parser factories: create_md_parser, and every function that hands one of its own parameters on
+        # to a factory as the renderer class (a cache or wrapper around create_md_parser)
+        factories: dict[str, tuple[int, str]] = {base_factory.fq: (1, "renderer")}
+        sites: list[tuple[FunctionInfo, ast.Call, tuple[int, str]]] = []
+        for _round in range(4):
+            sites = []
+            grew = False
+            for fi in corpus.all_functions():
+                if fi.is_lambda:
+                    continue
+                for call in _own_calls(fi):
+                    d = dotted(call.func)
+                    t = corpus.find_function(fi.module.resolve(d)) if d else None
+                    if t is None or t.fq not in factories:
+                        continue
+                    idx, nm = factories[t.fq]
+                    r = arg_or_kw(call, idx, nm)
+                    if isinstance(r, ast.Name) and r.id in fi.params and fi.fq not in factories:
+                        off = 1 if fi.cls is not None and fi.params and fi.params[0] in ("self", "cls") else 0
+                        factories[fi.fq] = (fi.params.index(r.id) - off, r.id)
+                        grew = True
+                    sites.append((fi, call, (idx, nm)))
+            if not grew:
+                break
+        for fi, call, (idx, nm) in sites:
+            r = arg_or_kw(call, idx, nm)
+            if isinstance(r, ast.Name) and r.id in fi.params and fi.fq in factories:
+                continue  # the wrapper itself: judged at its call sites
+            rname = fi.module.resolve(dotted(r) or "") if r is not None else ""
+            ci = corpus.find_class(rname) if rname else None
+            if ci is None or ci.fq not in rcls:
+                others.append((fi, call, unparse(r) if r is not None else "?"))
                 continue
-            for call in _own_calls(fi):
-                full = fi.module.resolve(dotted(call.func) or "")
-                if not full.endswith("parsers.mdit.create_md_parser"):
-                    continue
-                r = arg_or_kw(call, 1, "renderer")
-                rname = fi.module.resolve(dotted(r) or "") if r is not None else ""
-                ci = corpus.find_class(rname) if rname else None
-                if ci is None or ci.fq not in rcls:
-                    others.append((fi, call, unparse(r) if r is not None else "?"))
-                    continue
-                for hfi, hcall in _binding_sites(corpus, fi, call, 0):
-                    var = parent(hcall).targets[0].id  # type: ignore[union-attr]
-                    renders = [
-                        c
-                        for c in _own_calls(hfi)
-                        if isinstance(c.func, ast.Attribute) and c.func.attr == "render" and isinstance(c.func.value, ast.Name) and c.func.value.id == var
-                    ]
-                    if len(renders) != 1:
-                        raise Unsupported(f"{hfi.module.site(hcall)}: expected exactly one render call on `{var}`, found {len(renders)}")
-                    fes.append(FrontEnd(hfi, call, renders[0], ci))
+            for hfi, hcall in _binding_sites(corpus, fi, call, 0):
+                var = parent(hcall).targets[0].id  # type: ignore[union-attr]
+                renders = [
+                    c
+                    for c in _own_calls(hfi)
+                    if isinstance(c.func, ast.Attribute) and c.func.attr == "render" and isinstance(c.func.value, ast.Name) and c.func.value.id == var
+                ]
+                if len(renders) != 1:
+                    raise Unsupported(f"{hfi.module.site(hcall)}: expected exactly one render call on `{var}`, found {len(renders)}")
+                fes.append(FrontEnd(hfi, call, renders[0], ci))
         return fes, others
 
     return corpus.cache("c20-front-ends", compute)
@@ -407,11 +428,80 @@ def _only_parent_test(t: ast.expr, v: str) -> bool:
     return not any(isinstance(x, ast.Call) for x in ast.walk(t))
 
 
+def _is_create_warning(w: ast.expr, fi: FunctionInfo, corpus: Corpus | None) -> bool:
+    if corpus is None or not isinstance(w, ast.Call):
+        return False
+    g = get_callgraph(corpus)
+    ts = [t for t in g.resolve_call(w, fi) if isinstance(t, FunctionInfo)]
+    return bool(ts) and all(t.name == "create_warning" for t in ts)
+
+
+def _returns_none(t: FunctionInfo) -> str | None:
+    """Reason why a package function may return None, or None."""
+    if t.is_lambda:
+        return "lambda" if isinstance(t.node.body, ast.Constant) and t.node.body.value is None else None
+    ann = getattr(t.node, "returns", None)
+    if ann is not None:
+        a = unparse(ann).strip("'\"")
+        if "None" in a or "Optional" in a:
+            return f"{t.qualname}() is declared `-> {a}`"
+    for n in t.local_nodes():
+        if isinstance(n, ast.Return) and (n.value is None or (isinstance(n.value, ast.Constant) and n.value.value is None)):
+            return f"{t.qualname}() has a `return None` path (line {n.lineno})"
+    if not any(isinstance(n, ast.Return) for n in t.local_nodes()):
+        return f"{t.qualname}() has no return statement"
+    return None
+
+
+def _nullability(w: ast.expr | None, fi: FunctionInfo, corpus: Corpus | None, depth: int = 0) -> tuple[str, str]:
+    """('never'|'maybe'|'unknown', reason) - can the expression evaluate to None?"""
+    w = _deref(w, fi)
+    if w is None or depth > 4:
+        return "unknown", ""
+    if isinstance(w, ast.Constant):
+        return ("maybe", "it is the literal None") if w.value is None else ("never", "")
+    if isinstance(w, ast.IfExp):
+        parts = [_nullability(w.body, fi, corpus, depth + 1), _nullability(w.orelse, fi, corpus, depth + 1)]
+    elif isinstance(w, ast.BoolOp):
+        vals = w.values if isinstance(w.op, ast.And) else w.values[-1:]
+        parts = [_nullability(v, fi, corpus, depth + 1) for v in vals]
+        if isinstance(w.op, ast.And) and len(w.values) > 1:
+            parts.append(("maybe", f"`{short(w, 40)}` yields its first falsy operand"))
+    else:
+        parts = None
+    if parts is not None:
+        for kind in ("maybe", "unknown"):
+            for k_, why in parts:
+                if k_ == kind:
+                    return kind, why
+        return "never", ""
+    if isinstance(w, ast.Call):
+        if isinstance(w.func, ast.Attribute) and unparse(w.func.value).endswith("reporter"):
+            return "never", ""
+        d = dotted(w.func) or ""
+        full = fi.module.resolve(d) if d else ""
+        if full.startswith("docutils.nodes."):
+            return "never", ""
+        if corpus is not None:
+            g = get_callgraph(corpus)
+            ts = g.resolve_call(w, fi)
+            fts = [t for t in ts if isinstance(t, FunctionInfo)]
+            if fts and len(fts) == len(ts):
+                for t in fts:
+                    why = _returns_none(t)
+                    if why:
+                        return "maybe", why
+                return "never", ("typed-warning" if all(t.name == "create_warning" for t in fts) else "")
+        return "unknown", ""
+    return "unknown", ""
+
+
 class Filter:
     """One ``if <raw disabled>: for n in <doc>.findall(nodes.raw): replace`` construct, analysed."""
 
-    def __init__(self, fi: FunctionInfo, ifnode: ast.If):
+    def __init__(self, fi: FunctionInfo, ifnode: ast.If, corpus: Corpus | None = None):
         self.fi = fi
+        self.corpus = corpus
         self.ifnode = ifnode
         self.root: str | None = None
         self.problems: list[tuple[str, str, ast.AST]] = []  # (aspect, message, node)
@@ -550,7 +640,17 @@ class Filter:
                             if isinstance(px, (ast.Subscript, ast.Compare)) or (isinstance(px, ast.Attribute) and px.attr != "parent"):
                                 content_tests.append(n.test)
             all_tests = [n.test for n in walk_local(lp) if isinstance(n, (ast.If, ast.IfExp))]
-            if not content_tests and all_tests and all(_only_parent_test(t, v) for t in all_tests):
+            # skipped when the replacement is None?
+            for _c, kind_, new_ in muts:
+                if kind_ == "replace" and isinstance(new_, ast.Name) and any(any(isinstance(x, ast.Name) and x.id == new_.id for x in ast.walk(t)) for t in all_tests):
+                    nb, why_nb = _nullability(_deref(new_, fi), fi, self.corpus)
+                    if nb == "maybe":
+                        self.problems.append(("replacement-not-none", f"the raw node is only replaced when `{new_.id}` is not None, and it can be None ({why_nb}): in that case the node is neither replaced nor removed and stays in the document", _c))
+                        content_tests = None
+                        break
+            if content_tests is None:
+                pass  # reported above
+            elif not content_tests and all_tests and all(_only_parent_test(t, v) for t in all_tests):
                 self.oks.append(("every-node", f"each raw node that is attached to a parent is replaced/removed (`{short(all_tests[0], 40)}` only skips detached nodes)", muts[0][0]))
             elif content_tests:
                 self.problems.append(("every-node", f"raw nodes are only replaced depending on `{short(content_tests[0], 60)}`; the others survive with raw disabled", content_tests[0]))
@@ -578,21 +678,75 @@ class Filter:
             w = _deref(new, fi)
             if isinstance(w, (ast.List, ast.Tuple)):
                 raise Unsupported(f"{fi.module.site(call)}: raw node replaced by a list of nodes")
-            if isinstance(w, ast.Call) and isinstance(w.func, ast.Attribute) and unparse(w.func.value).endswith("reporter"):
-                level = w.func.attr
-                if level == "warning":
-                    self.oks.append(("reported", f"replacement is {short(w, 60)}", w))
-                elif level in ("info", "debug", "error", "severe", "critical"):
-                    self.problems.append(("reported", f"the refusal is reported with reporter.{level}, not as a warning" + (" (below the default report level: nothing is shown)" if level in ("info", "debug") else ""), w))
-                elif level == "system_message" and w.args and isinstance(w.args[0], ast.Constant):
-                    if w.args[0].value == 2:
-                        self.oks.append(("reported", f"replacement is {short(w, 60)}", w))
-                    else:
-                        self.problems.append(("reported", f"the refusal is reported at level {w.args[0].value}, not as a warning (2)", w))
-                else:
-                    raise Unsupported(f"{fi.module.site(w)}: reporter call `{short(w, 50)}` not understood")
+            # Element.replace(old, None) / replace_self(None) silently keep the old node: the replacement must not be None
+            st_call = cfg.stmt_of(call)
+            guarded = isinstance(new, ast.Name) and any(
+                (pol and isinstance(t, ast.Name) and t.id == new.id)
+                or (isinstance(t, ast.Compare) and len(t.ops) == 1 and isinstance(t.left, ast.Name) and t.left.id == new.id and isinstance(t.comparators[0], ast.Constant) and t.comparators[0].value is None and ((pol and isinstance(t.ops[0], ast.IsNot)) or (not pol and isinstance(t.ops[0], ast.Is))))
+                for t, pol in cfg.guards(st_call)
+            )
+            nullable, why_null = ("never", "") if guarded else _nullability(w, fi, self.corpus)
+            if nullable == "maybe":
+                self.problems.append(("replacement-not-none", f"the replacement `{short(w, 60)}` can be None ({why_null}); docutils' Element.replace(old, None) does nothing, so the raw node stays in the document and no refusal is reported", w))
+                continue
+            if nullable == "unknown":
+                raise Unsupported(f"{fi.module.site(call)}: cannot tell whether the replacement `{short(w, 50)}` can be None")
+            levels = _levels(w, fi, self.corpus)
+            if levels is None:
+                raise Unsupported(f"{fi.module.site(call)}: the replacement `{short(new, 50)}` is not a reporter message the rule understands")
+            bad = sorted(lv for lv in levels if lv != "warning")
+            if not bad:
+                self.oks.append(("reported", f"replacement is {short(w, 60)}" + (" (used only when not None)" if guarded else ""), w))
             else:
-                raise Unsupported(f"{fi.module.site(call)}: the replacement `{short(new, 50)}` is not a reporter message")
+                lv = bad[0]
+                self.problems.append(("reported", f"the refusal is reported with level `{lv}`, not as a warning" + (" (below the default report level: nothing is shown)" if lv in ("info", "debug", "0", "1") else ""), w))
+
+
+def _levels(w: ast.expr | None, fi: FunctionInfo, corpus: Corpus | None, depth: int = 0) -> set[str] | None:
+    """The severities the message expression can carry ('warning', 'info', 'error', ...), None if not understood.
+    None-valued alternatives contribute nothing (nullability is judged separately)."""
+    w = _deref(w, fi)
+    if w is None or depth > 4:
+        return None
+    if isinstance(w, ast.Constant) and w.value is None:
+        return set()
+    if isinstance(w, ast.IfExp):
+        parts = [_levels(w.body, fi, corpus, depth + 1), _levels(w.orelse, fi, corpus, depth + 1)]
+    elif isinstance(w, ast.BoolOp):
+        parts = [_levels(v, fi, corpus, depth + 1) for v in w.values]
+    else:
+        parts = None
+    if parts is not None:
+        if any(p_ is None for p_ in parts):
+            return None
+        return set().union(*parts)
+    if isinstance(w, ast.Call):
+        if isinstance(w.func, ast.Attribute) and unparse(w.func.value).endswith("reporter"):
+            lv = w.func.attr
+            if lv in ("warning", "info", "debug", "error", "severe", "critical"):
+                return {lv}
+            if lv == "system_message" and w.args and isinstance(w.args[0], ast.Constant) and isinstance(w.args[0].value, int):
+                return {"warning"} if w.args[0].value == 2 else {str(w.args[0].value)}
+            return None
+        if corpus is not None:
+            if _is_create_warning(w, fi, corpus):
+                return {"warning"}
+            g = get_callgraph(corpus)
+            ts = g.resolve_call(w, fi)
+            fts = [t for t in ts if isinstance(t, FunctionInfo) and not t.is_lambda]
+            if fts and len(fts) == len(ts):
+                out: set[str] = set()
+                for t in fts:
+                    rets = [n for n in t.local_nodes() if isinstance(n, ast.Return) and n.value is not None]
+                    if not rets:
+                        return None
+                    for r in rets:
+                        lv_ = _levels(r.value, t, corpus, depth + 1)
+                        if lv_ is None:
+                            return None
+                        out |= lv_
+                return out
+    return None
 
 
 def _filters_in(fi: FunctionInfo) -> list[ast.If]:
@@ -720,7 +874,7 @@ def r1_filter_postdominates(corpus: Corpus, rep: Report, tier: str):
         ident = (where.fq, ifn.lineno)
         if ident in analysed:
             continue
-        flt = Filter(where, ifn)
+        flt = Filter(where, ifn, corpus)
         analysed[ident] = flt
         rep.saw_function(where.fq)
         # the document filtered must be the one rendered into
@@ -1653,6 +1807,17 @@ def mutants(corpus: Corpus):
         # 3b. identity instead of truth test: raw_enabled = 0 slips through
         if isinstance(flt.test, ast.UnaryOp) and isinstance(flt.test.op, ast.Not):
             out.append(Mutant("c20-filter-identity-test", "C20.R1", dm.rel, splice(dm.src, flt.test, segment(dm.src, flt.test.operand) + " is False"), expect="raw filter|test"))
+        # 3c. replacement that can be None: Element.replace(old, None) keeps the raw node
+        wst = find_node(parse, lambda n: isinstance(n, ast.Assign) and isinstance(n.value, ast.Call) and isinstance(n.value.func, ast.Attribute) and n.value.func.attr == "warning" and unparse(n.value.func.value).endswith("reporter") and flt.lineno <= n.lineno <= flt.end_lineno)
+        if wst is not None:
+            wseg = segment(dm.src, wst.value)
+            out.append(Mutant("c20-filter-replacement-suppressible", "C20.R1", dm.rel, splice(dm.src, wst.value, 'create_warning(document, "Raw content disabled.", MystWarnings.NOT_SUPPORTED)'), expect="replacement-not-none", canary=True))
+            out.append(Mutant("c20-filter-replacement-conditional-none", "C20.R1", dm.rel, splice(dm.src, wst.value, wseg + " if document.settings.report_level <= 2 else None"), expect="replacement-not-none"))
+            rs3 = find_node(parse, lambda n: isinstance(n, ast.Expr) and isinstance(n.value, ast.Call) and unparse(n.value.func).endswith(".parent.replace"))
+            if rs3 is not None:
+                src3c = splice(dm.src, rs3, f"if {unparse(wst.targets[0])} is not None:\n{indent_of(parse, rs3)}    " + segment(dm.src, rs3))
+                src3c = splice(src3c, wst.value, 'create_warning(document, "Raw content disabled.", MystWarnings.NOT_SUPPORTED)')
+                out.append(Mutant("c20-filter-replacement-guarded-without-fallback", "C20.R1", dm.rel, src3c, expect="replacement-not-none"))
         # 4. extra condition
         out.append(Mutant("c20-filter-extra-condition", "C20.R1", dm.rel, splice(dm.src, flt.test, segment(dm.src, flt.test) + " and not config.gfm_only"), expect="raw filter|test"))
         loop = find_node(parse, lambda n: isinstance(n, ast.For) and "nodes.raw" in unparse(n.iter))
@@ -1691,6 +1856,9 @@ def mutants(corpus: Corpus):
             src = splice(sm.src, sloop.body[0], f"if {v}.get('format') == 'latex':\n{si}    {v}.parent.remove({v})\n{si}    continue\n{si}" + segment(sm.src, sloop.body[0]))
             src = splice(src, sloop.iter, lazy_iter)
             out.append(Mutant("c20-sphinx-filter-lazy-removal", "C20.R1", sm.rel, src, expect="lazy-iteration"))
+        swst = find_node(sparse, lambda n: isinstance(n, ast.Assign) and isinstance(n.value, ast.Call) and isinstance(n.value.func, ast.Attribute) and n.value.func.attr == "warning" and unparse(n.value.func.value).endswith("reporter") and sflt.lineno <= n.lineno <= sflt.end_lineno)
+        if swst is not None:
+            out.append(Mutant("c20-sphinx-filter-replacement-suppressible", "C20.R1", sm.rel, splice(sm.src, swst.value, 'create_warning(document, "Raw content disabled.", MystWarnings.NOT_SUPPORTED, line=node.line)'), expect="replacement-not-none"))
     else:
         out.append(("c20-sphinx-filter-reverted", "no raw filter in MystParser.parse"))
     if flt is not None:
